@@ -57,6 +57,7 @@ def strategy(tier):
         'yaml': st.sampled_from([0, 0, 1]),
         'body': st.sampled_from(['Body text here.', '# Heading\n\ntext *em* &amp; more', 'a: not meta\n\n* list', '   indented body', '中文 body']),
         'ops': st.lists(opst, max_size=4),
+        'dup': st.sampled_from([None, None, None, 0, 1, 2]),      # repeat entry i's key once more at the end of the block (lookups return the first occurrence)
         'family': st.sampled_from(['s', 'd', 'e', 'E']),
     })
 
@@ -111,6 +112,9 @@ def build(case):
         ents.append((k, nk, sep, v2, ind, conts))
     if not ents:
         return None
+    if case.get('dup') is not None:
+        k, nk, sep, v2, ind, conts = ents[case['dup'] % len(ents)]
+        ents.append((respell(k, case['dup'] % 4), nk, ' ', 'second occurrence', '', []))
     lines = []
     for (k, nk, sep, v, ind, conts) in ents:
         lines.append(k + ':' + sep + v)
@@ -179,7 +183,7 @@ class Api:
         return self.w.convert(self.src, 'html', EXT['COMPLETE'] | EXT['NOTES'], api=self.fam).text
 
 
-def check_block(api, ents, end, tail, where, src):
+def check_block(api, ents, end, tail, where, src, fenced=False):
     has, e = api.has()
     if not has:
         raise Violation('has_metadata:false', '%s: has_metadata false for %r' % (where, src))
@@ -187,12 +191,18 @@ def check_block(api, ents, end, tail, where, src):
         raise Violation('has_metadata:end', '%s: end offset %d, expected %d for %r' % (where, e, end, src))
     if tail is not None and src.encode('utf-8', 'surrogateescape')[e:] != tail:
         raise Violation('update:body-changed', '%s: text after the block changed: %r (expected tail %r)' % (where, src, tail))
+    if fenced and not re.search(rb'(^|\n)---\r?\n?$', src.encode('utf-8', 'surrogateescape')[:e]):
+        raise Violation('update:yaml-fence-lost', '%s: the block no longer ends with its closing fence: %r' % (where, src))
     ks = api.keys()
     exp = ''.join(nk + '\n' for (k, nk, v) in ents)
-    if ks != exp:
+    exp_dedup = ''.join(nk + '\n' for nk in dict.fromkeys(nk for (k, nk, v) in ents))
+    if ks != exp and ks != exp_dedup:
         raise Violation('keys', '%s: keys %r expected %r for %r' % (where, ks, exp, src))
+    firsts = {}
     for (k, nk, vlines) in ents:
-        expv = norm_val(vlines)
+        firsts.setdefault(nk, vlines)
+    for (k, nk, vlines) in ents:
+        expv = norm_val(firsts[nk])          # a repeated key: lookups answer with the first occurrence
         for how in (0, 1, 2, 3):
             got = api.value(respell(k, how))
             if got != expv:
@@ -213,11 +223,16 @@ def check(case, ctx):
     ctx.cls('yaml_%d' % case['yaml'])
     api = Api(ctx.w, fam, src)
     try:
-        check_block(api, ents, end, None, 'initial', src)
+        check_block(api, ents, end, None, 'initial', src, bool(case['yaml']))
         # (5) complete HTML carries the values
         page = api.html()
+        dups = set(nk for (k, nk, v) in ents if [x[1] for x in ents].count(nk) > 1)
+        if dups:
+            ctx.cls('duplicate_key')
         for (k, nk, vlines) in ents:
             expv = norm_val(vlines)
+            if nk in dups:
+                continue
             if nk == 'title':
                 m = re.search(r'<title>(.*?)</title>', page, re.S)
                 got = htmlmod.unescape(m.group(1)) if m else None
@@ -239,6 +254,7 @@ def check(case, ctx):
                     continue
             if kind == 'existing':
                 i = idx % len(ents)
+                i = [x[1] for x in ents].index(ents[i][1])       # a repeated key: the first occurrence is the one that is updated
                 k, nk, _ = ents[i]
                 if i == 0 and (val is None or val.strip() == ''):
                     continue
@@ -253,7 +269,7 @@ def check(case, ctx):
             newsrc = api.update(spelled, val)
             nops += 1
             ctx.cls('update_' + kind + ('_null' if val is None else ''))
-            check_block(api, ents, None, tail, 'after update %d (%s %r := %r)' % (nops, kind, spelled, val), newsrc)
+            check_block(api, ents, None, tail, 'after update %d (%s %r := %r)' % (nops, kind, spelled, val), newsrc, bool(case['yaml']))
         nt = nops > 0 or (len(ents) >= 2 and any(len(v) > 1 or re.search(r'[&:]|[^\x00-\x7f]', ' '.join(v)) for (_, _, v) in ents))
         if nt:
             ctx.nontrivial(src + repr(case['ops']) + fam)
